@@ -127,7 +127,7 @@ class KernelSim(WorldBase):
                                         "ncu": g.choice(THRESHOLDS), "mask": g.getrandbits(48), "end": "normal"}])
             return evs
         if self.prop == "C19":
-            return evs + self._plan_c19(g, case)
+            return evs + self._plan_c19(g, case) + self._plan_c19_pairs(g) + self._plan_c19_swaps(g)
         raise NotImplementedError(self.prop)
 
     def _plan_c19(self, g, case):
@@ -146,6 +146,48 @@ class KernelSim(WorldBase):
             for m in masks:
                 evs.append(["session", {"role": "isect", "flow": flow, "prefix": "i", "rank": v, "model": model,
                                         "mask": m, "reg": [], "end": "normal"}])
+        return evs
+
+    def _plan_c19_pairs(self, g):
+        """consecutive fibers given directly as coordinate lists (either side may be empty) under 1-2 dense outer loops"""
+        evs = []
+        for _ in range(2):
+            n = g.randint(1, 5)
+            S = g.randint(1, 8)
+            kinds = ["rand", "rand", "empty_a", "empty_b", "same", "disjoint", "long"]
+            pairs = []
+            for _ in range(n):
+                k = g.choice(kinds)
+                A = sorted(g.sample(range(S), g.randint(0, S)))
+                B = sorted(g.sample(range(S), g.randint(0, S)))
+                if k == "empty_a":
+                    A = []
+                elif k == "empty_b":
+                    B = []
+                elif k == "same":
+                    B = list(A)
+                elif k == "disjoint":
+                    B = [c for c in range(S) if c not in A]
+                elif k == "long":
+                    A = A[:1]
+                pairs.append([A, B])
+            outer = g.choice([1, 1, 2])
+            masks = list(range(min(16, 1 << n))) + [(1 << 48) - 1, g.getrandbits(48)]
+            for model in ("two-finger", "skip-ahead", "leader-follower"):
+                for m in masks:
+                    evs.append(["pairs", {"pairs": pairs, "outer": outer, "model": model, "mask": m}])
+        return evs
+
+    def _plan_c19_swaps(self, g):
+        evs = []
+        for _ in range(2):
+            nl = g.randint(1, 6)
+            S = g.randint(1, 7)
+            lists = [sorted(g.sample(range(S), g.randint(1, S))) for _ in range(nl)]
+            for radix in (2, 3, 4, "inf"):
+                for lat in (1, 2, 5, "N"):
+                    evs.append(["swaps", {"lists": lists, "radix": radix, "latency": lat,
+                                          "depth": g.choice([0, 0, 1]), "vals": g.randrange(1, 9)}])
         return evs
 
     def _gen_session(self, g, case, flow, role, prefix):
@@ -189,6 +231,10 @@ class KernelSim(WorldBase):
         try:
             if kind == "case":
                 return self.ev_case(ev[1])
+            if kind == "pairs":
+                return self.ev_pairs(ev[1])
+            if kind == "swaps":
+                return self.ev_swaps(ev[1])
             if self.case is None:
                 raise Skip("no case")
             if kind == "run":
@@ -307,7 +353,7 @@ class KernelSim(WorldBase):
                 Metrics.setNumCachedUses(s["ncu"])
             for rank, typ, cons in s["reg"]:
                 Metrics.trace(rank, typ, consumable=bool(cons))
-                if cons and self.prop == "C15" and s.get("both", True) and (hash_stable(rank + typ) % 2 == 0):
+                if cons and ((self.prop == "C15" and hash_stable(rank + typ) % 2 == 0) or role == "consume"):
                     Metrics.trace(rank, typ)       # file and consumable at once
             if isect is not None:
                 for typ in isect["types"]:
@@ -486,16 +532,18 @@ class KernelSim(WorldBase):
             if any(len(t.splitlines()) - 1 >= 2 * (s.get("ncu") or 1000) for t in out["files"].values()):
                 self.probe("flushed_at_least_twice")
         else:
+            ncmp = 0
             for (rank, typ), rows in batches.items():
                 text = out["files"].get(f"{pre}{rank}-{typ}.csv")
                 if text is None:
                     continue
+                ncmp += 1
                 mem = "".join(",".join(str(v) for v in row) + "\n" for row in rows)
                 if mem != text:
                     self.V("C16", "C16.consumable-same-rows", "session",
                            f"in-memory trace {rank}-{typ} delivered {len(rows)} rows, the file holds "
                            f"{len(text.splitlines())} lines, or their content differs")
-            self.probe("consumable_compared", len(batches))
+            self.probe("consumable_compared", ncmp)
 
     # ---- C19
     def _isect_setup(self, s, flow):
@@ -566,6 +614,130 @@ class KernelSim(WorldBase):
                    f"{s['model']} model reports {got}, an independent merge of the raw coordinate lists gives {want} "
                    f"({nf} fibers, {isect['drains']} batches, schedule {mode}); fibers: {pairs[:3]}")
 
+    def ev_pairs(self, a):
+        """for j (, i) in dense outer loops: for k, _ in fa[j] & fb[j]; traces drained at chosen fiber boundaries"""
+        pairs = a["pairs"]
+        model = a["model"]
+        n = len(pairs)
+        self.kexec += 1
+        if model == "two-finger":
+            obj, types, want = TwoFingerIntersector(), ["intersect_0", "intersect_1"], sum(tf_ref(A, B) for A, B in pairs)
+        elif model == "skip-ahead":
+            obj, types, want = SkipAheadIntersector(), ["intersect_0", "intersect_1"], sum(sa_ref(A, B) for A, B in pairs)
+        else:
+            obj, types, want = LeaderFollowerIntersector(), ["intersect_0"], sum(len(A) for A, B in pairs)
+        fa = [Fiber(list(A), [1] * len(A)) for A, B in pairs]
+        fb = [Fiber(list(B), [1] * len(B)) for A, B in pairs]
+        for f in fa + fb:
+            f.getRankAttrs().setId("K")
+        outer = a.get("outer", 1)
+        isect = {"obj": obj, "types": types, "rank": "K", "drains": 0, "err": None}
+        mask = a["mask"]
+        started = [False]
+        Metrics.beginCollect()
+        try:
+            for t in types:
+                Metrics.trace("K", t, consumable=True)
+
+            def inner(j):
+                if model == "leader-follower":
+                    it = Fiber.intersection(fa[j], fb[j], style="leader-follower")
+                else:
+                    it = fa[j] & fb[j]
+                for _ in it:
+                    pass
+                started[0] = True
+                if (mask >> (j % 48)) & 1:
+                    self._isect_drain(isect)
+            if outer == 1:
+                J = Fiber(list(range(n)), [1] * n)
+                J.getRankAttrs().setId("J")
+                for j, _ in J:
+                    inner(j)
+            else:
+                # two outer ranks: I (2 values) x J
+                half = (n + 1) // 2
+                I = Fiber([0, 1], [1, 1])
+                I.getRankAttrs().setId("I")
+                for i, _ in I:
+                    lo, hi = (0, half) if i == 0 else (half, n)
+                    if hi <= lo:
+                        continue
+                    J = Fiber(list(range(lo, hi)), [1] * (hi - lo))
+                    J.getRankAttrs().setId("J")
+                    for j, _ in J:
+                        inner(j)
+            if started[0]:
+                self._isect_drain(isect)
+            else:
+                for t in types:
+                    Metrics.consumeTrace("K", t)
+        finally:
+            try:
+                Metrics.endCollect()
+            except Exception:
+                Metrics.traces = {}
+                Metrics.endCollect()
+        full = (1 << n) - 1
+        mode = "per-fiber" if mask & full == full else ("one-shot" if mask & full == 0 else "mixed")
+        self.probe("pairs_schedule:" + mode)
+        if any((not A) != (not B) for A, B in pairs):
+            self.probe("pairs_one_sided_empty_fiber")
+        if isect["err"]:
+            self.V("C19", "C19.batching", "pairs",
+                   f"{model} model raised {isect['err']} ({n} fibers, schedule {mode}, {outer} outer ranks): {pairs}")
+            return {"err": isect["err"]}
+        got = obj.getNumIntersects()
+        if got != want:
+            self.V("C19", "C19.count" if mode == "per-fiber" else "C19.batching", "pairs",
+                   f"{model} model reports {got}, an independent merge of the raw coordinate lists gives {want} "
+                   f"({n} fibers, {isect['drains']} batches, schedule {mode}, {outer} outer ranks): {pairs}")
+        return {"n": got}
+
+    def ev_swaps(self, a):
+        """piggy-back (pure function): Compute.numSwaps against an independent merge-round model"""
+        lists = a["lists"]
+        radix = float("inf") if a["radix"] == "inf" else a["radix"]
+        lat = a["latency"]
+        depth = a.get("depth", 0)
+        self.kexec += 1
+
+        def build(scale):
+            nest_lists = lists if depth == 0 else None
+            t = Tensor(rank_ids=(["M", "K"] if depth == 0 else ["P", "M", "K"]), shape=([len(lists), 8] if depth == 0 else [2, len(lists), 8]))
+            for p in range(1 if depth == 0 else 2):
+                for m, cs in enumerate(lists):
+                    for c in cs:
+                        pt = (m, c) if depth == 0 else (p, m, c)
+                        r = t.getPayloadRef(*pt)
+                        r <<= scale + c
+            return t
+        try:
+            got = Compute.numSwaps(build(a["vals"]), depth, radix, lat)
+            got2 = Compute.numSwaps(build(a["vals"] + 3), depth, radix, lat)
+        except Exception as e:
+            self.V("C19", "C19.swaps", "swaps", f"numSwaps raised {type(e).__name__}: {str(e)[:80]}")
+            return {}
+        mult = 1 if depth == 0 else 2
+        if got != got2:
+            self.V("C19", "C19.swaps", "swaps", f"numSwaps depends on payload values: {got} vs {got2}")
+        if lat != "N":
+            want = swaps_ref(lists, radix, lat) * mult
+            if got != want:
+                self.V("C19", "C19.swaps", "swaps",
+                       f"numSwaps(radix={a['radix']}, latency={lat}, depth={depth}) = {got}, latency per list and per "
+                       f"element of every merge round gives {want} for lists {lists}")
+        else:
+            # unbounded latency: the exact comparison count is the implementation's convention; every element
+            # that enters a merge group costs at least one comparison and at most one per list of its group
+            lo, hi = swaps_bounds(lists, radix)
+            if not (lo * mult <= got <= hi * mult):
+                self.V("C19", "C19.swaps", "swaps",
+                       f"numSwaps(radix={a['radix']}, latency=N, depth={depth}) = {got}, outside [{lo * mult}, {hi * mult}] "
+                       f"(one comparison per merged element .. one per element and list of its group) for lists {lists}")
+        self.probe("swaps_checked")
+        return {"n": got}
+
     def finish(self):
         # leave no collection running (the child exits anyway)
         return {"sessions": self.nsess, "kernel_executions": self.kexec}
@@ -619,3 +791,35 @@ def sa_ref(A, B):
                 cur = 1
             j += 1
     return n
+
+
+def swaps_ref(lists, radix, latency):
+    """merge rounds of the given radix, finite latency L: every group costs L per list and L per element"""
+    cur = [sorted(l) for l in lists]
+    total = 0
+    while len(cur) > 1:
+        r = int(min(radix, len(cur)))
+        nxt = []
+        for i in range(0, len(cur), r):
+            grp = cur[i:i + r]
+            merged = sorted(c for l in grp for c in l)
+            total += latency * (len(grp) + len(merged))
+            nxt.append(merged)
+        cur = nxt
+    return total
+
+
+def swaps_bounds(lists, radix):
+    cur = [sorted(l) for l in lists]
+    lo = hi = 0
+    while len(cur) > 1:
+        r = int(min(radix, len(cur)))
+        nxt = []
+        for i in range(0, len(cur), r):
+            grp = cur[i:i + r]
+            merged = sorted(c for l in grp for c in l)
+            lo += len(merged)
+            hi += len(merged) * len(grp)
+            nxt.append(merged)
+        cur = nxt
+    return lo, hi
